@@ -30,6 +30,10 @@ M=[
  ("c20-flush-ignored","C20","simple-mdns/src/resource_record_manager.rs","        let ttl = if resource.cache_flush {\n            1\n        } else {\n            resource.ttl\n        };","        let ttl = resource.ttl;",True),
  ("c20-refresh-at-in-filter","C20","simple-mdns/src/resource_record_manager.rs","self.cached && exp_info.expire_at > Instant::now()","self.cached && exp_info.refresh_at > Instant::now()",True),
  ("c20-ttl-millis","C20","simple-mdns/src/resource_record_manager.rs","        let expire_at = added + Duration::from_secs(ttl);","        let expire_at = added + Duration::from_millis(ttl * 1000 + (ttl > 1000) as u64 * 999_000);",True),
+ ("c14-tokio-send-exits-loop","C14","simple-mdns/src/async_discovery/simple_responder.rs","                            if let Err(err) = sender_socket.send_to(&reply, reply_addr).await {\n                                log::error!(\"Failed to send reply {err}\");\n                            }","                            sender_socket.send_to(&reply, reply_addr).await?;",True),
+ ("c15-tokio-ingest-no-subdomain-test","C15","simple-mdns/src/async_discovery/service_discovery.rs",".filter(|aw| aw.name.ne(full_name) && aw.name.is_subdomain_of(service_name))",".filter(|aw| aw.name.ne(full_name))",True),
+ ("c13-tokio-reply-to-group-always","C13","simple-mdns/src/async_discovery/service_discovery.rs","                    let reply_addr = if unicast_response {\n                        origin_addr\n                    } else {\n                        self.network_scope.socket_address()\n                    };","                    let reply_addr = if unicast_response && reply.len() % 2 == 0 {\n                        origin_addr\n                    } else {\n                        self.network_scope.socket_address()\n                    };",True),
+ ("c20-tokio-silent-refresh-more-often","C20","simple-mdns/src/async_discovery/service_discovery.rs","        Ok(now + Duration::from_secs(5))","        Ok(now + Duration::from_secs(3))",False),
  ("c20-silent-ge-boundary","C20","simple-mdns/src/resource_record_manager.rs","self.cached && exp_info.expire_at > Instant::now()","self.cached && exp_info.expire_at >= Instant::now()",False),
 ]
 
